@@ -443,8 +443,8 @@ impl Property for C16 {
     }
     fn budget(&self, tier: Tier) -> (u32, usize) {
         match tier {
-            Tier::Quick => (400_000, 8),
-            Tier::Thorough => (8_000_000, 16),
+            Tier::Quick => (1_200_000, 8),
+            Tier::Thorough => (20_000_000, 16),
         }
     }
     fn run(&self, case: &RcCase) -> Report {
